@@ -571,14 +571,14 @@ pub fn run(tier: Tier) -> Report {
   rep.assume("the engine stamps activity with Instant::now(); the harness overwrites the stamp with the scripted clock after each call (nothing in the same call reads it afterwards); time unit 10 s so real elapsed microseconds are negligible");
   rep.assume("any inbound frame after a PING ends the wait for its PONG (traffic proves liveness); a session closed at PING+TIMEOUT although traffic arrived in between is a violation");
   rep.assume("the actor's timer wiring (a tick every HEARTBEAT_IVL) is not part of the engine timelines; the 'no later than two intervals' clause follows from ping-not-sent-when-idle plus a tick every IVL");
-  let d = tier.pick(6, 8);
+  let d = tier.pick(6, 10);
   for (ivl, to) in [(2u32, 1u32), (2, 2), (2, 5)] {
     rep.add(timeline_sub(Kind::V3Null, ivl, to, d));
   }
   rep.add(timeline_sub(Kind::V2, 2, 1, d));
-  rep.add(timeline_sub(Kind::Curve, 2, 2, tier.pick(5, 7)));
-  rep.add(timeline_sub(Kind::Noise, 2, 2, tier.pick(5, 7)));
-  rep.add(egress_sub(tier.pick(5, 6)));
+  rep.add(timeline_sub(Kind::Curve, 2, 2, tier.pick(5, 8)));
+  rep.add(timeline_sub(Kind::Noise, 2, 2, tier.pick(5, 8)));
+  rep.add(egress_sub(tier.pick(5, 7)));
   rep.add(crate::c19_real::stack_sub(tier));
   rep
 }
